@@ -103,3 +103,15 @@ func VerifBrokerID(x interface{}) int32 {
 	}
 	return -1
 }
+
+// VerifDecodeAssignment decodes a member assignment as handed out through SyncGroup.
+func VerifDecodeAssignment(raw []byte) (map[string][]int32, error) {
+	if len(raw) == 0 {
+		return map[string][]int32{}, nil
+	}
+	a := new(ConsumerGroupMemberAssignment)
+	if err := decode(raw, a); err != nil {
+		return nil, err
+	}
+	return a.Topics, nil
+}
